@@ -3,7 +3,7 @@
    reduces it to one pixel. *)
 From Coq Require Import ZArith NArith List Bool Lia.
 From Centro Require Import Base.Topo Base.Skel Base.TopoPar Base.TopoGrid.
-From Centro Require Import Model.ThinSkel Spec.TopoCheck Proofs.ThinSkelTopo Proofs.TopoCounts Proofs.ShrinkPoint.
+From Centro Require Import Model.ThinSkel Spec.TopoCheck Proofs.ThinSkelTopo Proofs.TopoCounts Proofs.ShrinkPoint Proofs.TopoCheckPoints.
 Import ListNotations.
 Open Scope Z_scope.
 
@@ -83,4 +83,14 @@ Proof.
   - intros a b Ha Hb. apply (te_bg_iff _ _ T a b Ha Hb). apply one_hole_free; apply (sub_bg _ _ T); assumption.
   - exists (0, 0), (0, 1). split; [discriminate|split; reflexivity].
   - vm_compute. reflexivity.
+Qed.
+
+(* premises of C05_ronse_points / C05_topo_check_complete_points on a non-trivial pair *)
+Example points_premises :
+  wf 1 2 domino /\ wf 1 2 one /\ hole_free (img_of one) /\ singletons (img_of one) /\
+  TopoEq (img_of domino) (img_of one) /\ (exists p, img_of domino p = true /\ img_of one p = false).
+Proof.
+  split; [split; [reflexivity|intros r [<-|[]]; reflexivity]|]. split; [split; [reflexivity|intros r [<-|[]]; reflexivity]|].
+  split; [exact one_hole_free|]. split; [|split; [exact domino_topo|exists (0, 1); split; reflexivity]].
+  intros a b Ha Hb _. apply one_img in Ha, Hb. congruence.
 Qed.
